@@ -1,5 +1,7 @@
 import GeoVerif.Drv.Util
 import GeoVerif.Drv.C06
+import GeoVerif.Drv.C03
+import GeoVerif.Drv.C07
 import GeoVerif.Drv.C01
 import GeoVerif.Drv.C02
 /-!
@@ -18,6 +20,8 @@ def handle (line : String) : String :=
     | ["ti", op] => handleTI op args
     | ["pip", op] => handlePip op args
     | ["rel", op] => handleRel op args
+    | ["gd", op] => handleGD op args
+    | ["cv", op] => handleCV op args
     | _ => "bad-op"
 
 partial def loop (i o : IO.FS.Stream) : IO Unit := do
